@@ -310,6 +310,53 @@ def _const_bytes_through(body, o, depth=8):
     return None
 
 
+class FmtArg(tuple):
+    """(trait, type) with the constant value of the argument when it is a literal (`.value`) and its operand (`.operand`)."""
+    def __new__(cls, t, value=None, operand=None):
+        o = super().__new__(cls, t)
+        o.value = value
+        o.operand = operand
+        return o
+
+
+def _const_int_through(body, o, depth=8):
+    for _ in range(depth):
+        k = op_const(o)
+        if k is not None:
+            if "refint" in k:
+                return int(k["refint"])
+            return const_int(k)
+        p = op_place(o)
+        if p is None:
+            return None
+        d = body.single_def(p["l"])
+        if d is None or d[2] != "rv":
+            return None
+        rv = d[3]
+        flds = [e for e in p["p"] if e != "*"]
+        if flds:
+            e = flds[0]
+            if len(flds) == 1 and rv["k"] == "agg" and isinstance(e, dict) and "f" in e and e["f"] < len(rv["ops"]):
+                o = rv["ops"][e["f"]]
+                continue
+            return None
+        if rv["k"] in ("use", "cast"):
+            o = rv["o"]
+        elif rv["k"] == "ref":
+            o = {"c": {"l": rv["p"]["l"], "p": [e for e in rv["p"]["p"] if e != "*"]}}
+            if o["c"]["p"]:
+                # &(tuple.N): follow the aggregate
+                dd = body.single_def(o["c"]["l"])
+                e = o["c"]["p"][0]
+                if dd and dd[2] == "rv" and dd[3]["k"] == "agg" and isinstance(e, dict) and "f" in e and e["f"] < len(dd[3]["ops"]) and len(o["c"]["p"]) == 1:
+                    o = dd[3]["ops"][e["f"]]
+                    continue
+                return None
+        else:
+            return None
+    return None
+
+
 def _format_args_array(body, o):
     """[(trait, ty)] for the array of fmt::rt::Argument behind operand `o` (a &[Argument; N])."""
     # o -> &_arr ; _arr = [a0, a1, ..] ; ai = Argument::new_xxx::<T>(..)
@@ -333,7 +380,7 @@ def _format_args_array(body, o):
                     full = f.get("full", "")
                     m = re.search(r"Argument::<'.*?>::new_(\w+)::<(.+)>$", full)
                     if m:
-                        res.append((m.group(1), m.group(2)))
+                        res.append(FmtArg((m.group(1), m.group(2)), _const_int_through(body, ed[3]["args"][0]), ed[3]["args"][0]))
                         continue
                 res.append(("?", "?"))
             return res
@@ -581,3 +628,79 @@ def feasible_reach(b, start_bb, target_bb, avoid=()):
         if target_bb not in flag_reach(b, flag, assigns, start_bb, avoid):
             return False
     return True
+
+
+# ----------------------------------------------------------------------------- small tracing helpers
+
+def trace_operand(body, o, depth=10):
+    """follow copies, re-borrows and tuple-field selections back to the operand that carries the value."""
+    for _ in range(depth):
+        if op_const(o) is not None:
+            return o
+        p = op_place(o)
+        if p is None:
+            return o
+        flds = [e for e in p["p"] if e != "*"]
+        if (p["l"] in body.names and not flds) or 1 <= p["l"] <= body.argc:
+            return o
+        d = body.single_def(p["l"])
+        if d is None or d[2] != "rv":
+            return o
+        rv = d[3]
+        if flds:
+            e = flds[0]
+            if len(flds) == 1 and rv["k"] == "agg" and isinstance(e, dict) and "f" in e and e["f"] < len(rv["ops"]):
+                o = rv["ops"][e["f"]]
+                continue
+            return o
+        if rv["k"] in ("use", "cast"):
+            o = rv["o"]
+        elif rv["k"] == "ref":
+            o = {"c": rv["p"]}
+            if rv["p"]["p"] and rv["p"]["p"] != ["*"]:
+                return o
+            if rv["p"]["p"] == ["*"]:
+                o = {"c": {"l": rv["p"]["l"], "p": []}}
+        else:
+            return o
+    return o
+
+
+def traced(body, o, depth=4):
+    return body.oname(trace_operand(body, o), depth)
+
+
+def vec_literal(body, o):
+    """operands of a `vec![a, b, c]` literal behind operand o (lowered to Box::new_uninit + array store), else None."""
+    d = body.def_rv(o)
+    if not (d and d[2] == "call" and (d[3]["f"].get("fn") or "").endswith("box_assume_init_into_vec_unsafe")):
+        return None
+    bp = op_place(body.resolve_copy(d[3]["args"][0]))
+    if bp is None:
+        return None
+    box_local = body.root_place(bp, through_names=True)["l"]
+    for bi, si, s in body.stmts():
+        rv = s.get("rv")
+        if rv and rv["k"] == "agg" and rv["kind"].get("a") == "array" and s["lhs"]["p"]:
+            base = s["lhs"]["l"]
+            dds = [x for x in body.defs.get(base, []) if x[2] == "rv"]
+            dd = dds[0] if len(dds) == 1 else None
+            if dd and dd[2] == "rv" and dd[3]["k"] == "cast":
+                sp = op_place(dd[3]["o"])
+                if sp is not None and body.root_place({"l": sp["l"], "p": []}, through_names=True)["l"] == box_local:
+                    return rv["ops"]
+    return None
+
+
+def dict_sets(body):
+    """[(key bytes or None, value operand, call)] for every Dictionary::set in the body (keys given as &str, &[u8] or Vec<u8>)."""
+    out = []
+    for c in body.calls:
+        if c.local and c.name.endswith("Dictionary::set") and len(c.args) == 3:
+            k = _const_bytes_through(body, c.args[1])
+            if k is None:
+                dk = body.def_rv(c.args[1])
+                if dk and dk[2] == "call" and dk[3]["args"]:
+                    k = _const_bytes_through(body, dk[3]["args"][0])
+            out.append((k, c.args[2], c))
+    return out
